@@ -16,6 +16,7 @@ import (
 	"github.com/llir/llvm/vhook"
 
 	"verif/fw"
+	"verif/gen"
 )
 
 func init() { Registry["C12"] = Prop{Run: runC12, Replay: replayC12} }
@@ -215,9 +216,46 @@ func c12runArranged(text string, dev map[int][]int) (out string, hits []c12hit) 
 	return
 }
 
+// c12genInputs: batches of generated catalogue fragments (many keys per translator index).
+func c12genInputs(bound int) []struct{ name, text string } {
+	var vs []gen.Variant
+	for i, e := range gen.Catalogue() {
+		for _, v := range gen.Variants(e, i, bound) {
+			if v.Solo {
+				continue
+			}
+			if _, errs, pan := parseTry(gen.Module([]gen.Variant{v})); errs == "" && pan == "" {
+				vs = append(vs, v)
+			}
+		}
+	}
+	var out []struct{ name, text string }
+	const batch = 24
+	for i := 0; i < len(vs); i += batch {
+		j := i + batch
+		if j > len(vs) {
+			j = len(vs)
+		}
+		out = append(out, struct{ name, text string }{fmt.Sprintf("generated-batch-%d", i/batch), gen.Module(vs[i:j])})
+	}
+	return out
+}
+
 func c12mapOrders(c *fw.Check, maxDev int) {
 	sitesSeen := map[string]bool{}
-	for _, in := range c12inputs {
+	inputs := append([]struct{ name, text string }(nil), c12inputs...)
+	genBound := 0
+	if maxDev >= 2 {
+		genBound = 1
+	}
+	gi := c12genInputs(genBound)
+	c.Extra["generated_batches_as_inputs"] = len(gi)
+	inputs = append(inputs, gi...)
+	for _, in := range inputs {
+		if c.OverBudget() {
+			break
+		}
+		generated := strings.HasPrefix(in.name, "generated-batch")
 		base, hits := c12runArranged(in.text, nil)
 		c.Case("map|"+in.name+"|default", base)
 		for _, h := range hits {
@@ -254,7 +292,7 @@ func c12mapOrders(c *fw.Check, maxDev int) {
 		for _, d := range singles {
 			run([]dv{d})
 		}
-		if maxDev >= 2 {
+		if maxDev >= 2 && !generated {
 			for i := 0; i < len(singles); i++ {
 				for j := i + 1; j < len(singles); j++ {
 					if singles[i].hit == singles[j].hit {
